@@ -992,6 +992,14 @@ func (a *AMF) setupRequest(u *UE) []byte {
 		ieNode(74, 0, "PDUSessionResourceSetupListSUReq", refper.Seq("List", refper.List(item))))
 }
 
+// SetupRequestSize: the length in octets of the PDU SESSION RESOURCE SETUP REQUEST this AMF would send to a UE with
+// the given NGAP ids under the current choices (used to aim at exact message sizes; contents of keys do not matter).
+func (a *AMF) SetupRequestSize(amfID, ranID int64) int {
+	u := &UE{PSI: 1, PTI: 1, AmfID: amfID, RanID: ranID, UEIP: a.Ch.UEIP[0], TEID: a.Ch.TEID[0], UPF: a.Ch.UPFIP[0]}
+	u.sec = refnas.SecCtx{NIA: 2, NEA: 0}
+	return len(a.setupRequest(u))
+}
+
 func (a *AMF) checkSetupItem(u *UE, it *refper.Node, msg string) {
 	if p := it.Path("PDUSessionID.Value"); p == nil || p.I != int64(u.PSI) {
 		a.violate("session/psi-differs-in-ngap-response/"+msg, "%s lists PDU session %s, the UE's session (NAS) is %d", msg, p, u.PSI)
